@@ -256,12 +256,13 @@ fn gen_defs(rng: &mut Rng, with_norm: bool, edge_ids: bool) -> Defs {
         d.infos.push(info);
     }
     if rng.chance(1, 10) { d.char_def.push_str("# trailing comment\n\n"); }
+    let mut edge = false;
     for info in d.infos.clone() {
         let nlines = if rng.chance(1, 7) { 0 } else { rng.range(1, 3) };
         for _ in 0..nlines {
             let u = Unk {
                 cat: info.cat,
-                l: if edge_ids && rng.chance(1, 40) { N_IDS as u16 } else { small_id(rng) },
+                l: if edge_ids && rng.chance(1, 40) { edge = true; N_IDS as u16 } else { small_id(rng) },
                 r: small_id(rng),
                 cost: small_cost(rng),
                 pos: rng.below(POS.len()),
@@ -281,6 +282,8 @@ fn gen_defs(rng: &mut Rng, with_norm: bool, edge_ids: bool) -> Defs {
         d.unk_def.push_str(&format!("{},{},{},{},{}\n", name_of(u.cat), u.l, u.r, u.cost, POS[u.pos].join(",")));
         if rng.chance(1, 15) { d.unk_def.push_str("# comment\n"); }
     }
+    // an id equal to the matrix dimension is rejected once D15b is repaired (`>=`)
+    if edge && source_unk_ge() { d.broken = true; }
     if rng.chance(1, 40) {
         d.broken = true;
         match rng.below(4) {
@@ -490,6 +493,19 @@ fn source_chains_bow_ban() -> bool {
     *P.get_or_init(|| buffer_source().contains("next_bow = !cat.intersects(CategoryType::NOOOVBOW2)"))
 }
 
+/// does `MeCabOovPlugin::read_oov` reject ids equal to the matrix dimension (repair of D15b)?
+fn source_unk_ge() -> bool {
+    static P: std::sync::OnceLock<bool> = std::sync::OnceLock::new();
+    *P.get_or_init(|| {
+        let toml = std::fs::read_to_string(format!("{}/harness/Cargo.toml", std::env::var("VERIF_ROOT").unwrap_or_else(|_| "/verif".into()))).unwrap_or_default();
+        let dir = toml.lines().find_map(|l| {
+            let l = l.trim();
+            if l.starts_with("sudachi") && l.contains("path") { l.split("path").nth(1).and_then(|r| r.split('"').nth(1)).map(|x| x.to_string()) } else { None }
+        }).unwrap_or_else(|| "/repo/sudachi".to_string());
+        std::fs::read_to_string(format!("{}/src/plugin/oov/mecab_oov/mod.rs", dir)).map(|s| s.contains("as usize >= grammar.conn_matrix().num_left()")).unwrap_or(false)
+    })
+}
+
 fn source_is_forward() -> bool {
     static P: std::sync::OnceLock<bool> = std::sync::OnceLock::new();
     *P.get_or_init(|| {
@@ -624,7 +640,7 @@ fn case_buf(run: &mut Run, ctx: &Ctx, idx: usize, d: &Defs, text: &str) {
 
 fn prov_tokens(kind: &Prov, d: &Defs, sp: &SimpleP, rp: &RegexP, ctx: &Ctx) -> String {
     match kind {
-        Prov::M => format!("mdef={} unk={} poslist={} nl={} nr={}", hex(d.char_def.as_bytes()), hex(d.unk_def.as_bytes()), ctx.poslist_hex, N_IDS, N_IDS),
+        Prov::M => format!("mdef={} unk={} poslist={} nl={} nr={} unkge={}", hex(d.char_def.as_bytes()), hex(d.unk_def.as_bytes()), ctx.poslist_hex, N_IDS, N_IDS, if source_unk_ge() { 1 } else { 0 }),
         Prov::S => format!("sp={}:{}:{}:{}", sp.l, sp.r, sp.cost, sp.pos),
         Prov::R => format!("rp={}:{}:{}:{} re={} maxlen={} strict={}", rp.l, rp.r, rp.cost, rp.pos,
             join(rp.alts.iter().map(|a| format!("{}:{}:{}", a.min, a.max.map_or(0, |m| m + 1), join(a.set.iter().map(|c| *c as u32), "."))), ";"),
